@@ -44,7 +44,8 @@ Driver for property C20 (file descriptors stay attached to the message that carr
         and for every delivery `parsedDelivery` (C03's `parseMessage`, C01's codec, on the queue of that moment).
         output: `M raw=<hex> send=<f<n> ... W|?> tree=<tokens|-|?>` (or `M err=<Exception>`) per call, joined by
                 ` ; `, then ` || `, then `D <rawhex> a=<args> b=<queue before> q=<queue after> p=<body|N|!Exception>`
-                per delivery joined by ` ; `, then ` | <buffer hex> <queue>`
+                per delivery joined by ` ; `, then ` | <buffer hex> <queue>`, then ` L <hook calls> <crashed 0|1> <queue>`:
+                the literal receiver `litRecvRun` (descriptor events + C04's `Receive.handleFrame`) on the same events
 -/
 open Txdbus.Proto Txdbus.Proto.FdsE2E
 
@@ -269,13 +270,9 @@ def senderLine (c : Call PyVal) (nxt mx : Nat) : String :=
   match r.2 with
   | .error e => "M err=" ++ pyErrName e
   | .ok m =>
-    -- `msg.oobFDs` afterwards: only MethodCallMessage has the attribute (`hasattr(msg, 'oobFDs')`)
-    let oob : Option (List PyVal) :=
-      match c with
-      | .methodCall a => oobAfter xFuel a
-      | _ => none
+    -- `sendMessage(msg)`: `sendOfCall` (only MethodCallMessage has `oobFDs`)
     let send : String :=
-      match sendConstructed oob with
+      match sendOfCall xFuel c with
       | some evs => " ".intercalate (evs.map fun e => match e with | .sendFd d => "f" ++ toString d | .write => "W")
       | none => "?"
     -- the body as the sender model of Proto/Fds.lean walks it
@@ -322,8 +319,12 @@ def composed (n : String) (toks : List String) : String :=
               | some v => printVal v
           "D " ++ bytesToHex d.raw ++ " a=" ++ showOptList d.args ++ " b=" ++ showNatList d.queueBefore
             ++ " q=" ++ showNatList d.queueAfter ++ " p=" ++ p
+        -- the literal receiver (`litRecvRun`: descriptor events + C04's `Receive.handleFrame`) on the same events
+        let l := litRecvRun T xFuel noAuth ⟨s0, [], false⟩ es
+        let lq : String := match l.1.queue.mapM fdNat? with | some q => showNatList q | none => "?"
+        let lok := (l.2.filter fun c => match c with | .ok _ => true | .error _ => false).length
         " ; ".intercalate ms ++ " || " ++ " ; ".intercalate ds ++ " | " ++ bytesToHex r.1.st.buffer ++ " " ++
-          showNatList r.1.queue
+          showNatList r.1.queue ++ " L " ++ toString lok ++ " " ++ b01 l.1.crashed ++ " " ++ lq
     | _ => "error bad-calls"
 
 def handle (line : String) : String :=
